@@ -35,11 +35,11 @@ def gen(chk, tier):
     q = tier == "quick"
     for field, m in (("p", P), ("n", N)):
         elems = critical_elements(rng, m, 60 if q else 400)
-        unary = ["square", "invert", "set", "one"] + (["opp"] if field == "p" else [])
+        unary = ["square", "invert", "set", "one"] + (["opp", "divstepinvert"] if field == "p" else [])
         for a in elems if not q else elems[:40]:
             for fn in unary:
                 g.one("%s_%s" % (field, fn), "fiat.op", field=field, fn=fn, a=b32(a),
-                      alias="none" if fn == "invert" else rng.choice(["none", "ra"]))
+                      alias="none" if "invert" in fn else rng.choice(["none", "ra"]))
         pairs = []
         if q:
             for _ in range(250):
